@@ -300,13 +300,16 @@ PROPS["C13"] = dict(
           "after reading every tracked entry back totals == on-disk totals, total_bytes <= capacity after any put returned (checked in every thread), and again after re-opening with the same capacity; "
           "schedules are weighted to simultaneous identical puts and overlapping puts racing evictions with tiny capacities; distinct = (mode, scenario, threads, grant-sequence hash)"),
     assumptions=["no single item is larger than the capacity", "interleavings inside std / file-system calls are not steered (points sit between them)", "random eviction victim not controlled"],
+    exhaustive_note="cache_enum: every grant sequence (at the granularity of the hook points) of the small scenarios counted in scenarios_enumerated_exhaustively (2 threads: identical puts, nested puts, put vs put+get, puts racing an eviction)",
     jobs=[
         Job("cache_conc", engine="cache_conc", workers=(10, 12), cases=(200, 20000), time_s=(40, 700), **FULL),
         Job("cache_seq", engine="cache_seq", workers=(4, 4), cases=(250, 25000), time_s=(40, 700), **FULL),
+        # systematic (depth-first) enumeration of all grant sequences of small scenarios
+        Job("cache_enum", engine="cache_enum", workers=(6, 16), cases=(4, 30), time_s=(60, 800), args={"max-schedules": (4000, 60000), "p3": (0, 3)}, **FULL),
     ],
     gates=dict(evaluations=(2500, 200000), distinct=(1500, 50000),
                counters={"scenario_identical-puts": (500, 50000), "scenario_overlap-evict": (200, 20000), "steered_grants": (15000, 1000000), "hook_points_crossed": (20000, 1000000),
-                         "seq_histories_with_eviction": (200, 20000)}),
+                         "seq_histories_with_eviction": (200, 20000), "enumerated_schedules": (2000, 200000), "scenarios_enumerated_exhaustively": (10, 100)}),
 )
 
 PROPS["C20"] = dict(
